@@ -199,6 +199,24 @@ fn c01_schema(sc: &Sc, filter: &Filter, depth: usize) -> Stats {
                                 }
                             }
                         }
+                        // the deprecated convenience functions are thin wrappers: same bytes, same value
+                        if chunk_problem.is_none() {
+                            st.transitions += 2;
+                            #[allow(deprecated)]
+                            let w = guarded(|| apache_avro::to_avro_datum(&schema, lv.clone()));
+                            #[allow(deprecated)]
+                            let r = guarded(|| apache_avro::from_avro_datum(&schema, &mut &b1[..], None));
+                            let w_ok = matches!(&w, Ok(Ok(b)) if *b == b1);
+                            let r_ok = matches!(&r, Ok(Ok(g2)) if from_lib(g2, &sc.s, &sc.env).is_ok_and(|x| veq(&x, v)));
+                            if !w_ok || !r_ok {
+                                chunk_problem = Some((0, format!("to_avro_datum: {} ; from_avro_datum: {}", ev::trunc(&format!("{w:?}"), 150), ev::trunc(&format!("{r:?}"), 150))));
+                            }
+                        }
+                        if let Some((0, what)) = &chunk_problem {
+                            st.outcome("wrapper-differs");
+                            st.violate(order, "to_avro_datum / from_avro_datum differ from the datum writer / reader they wrap", case_json(sc, v, json!({"bytes": hex(&b1), "observed": what})), replay_json(sc, vi, depth));
+                            continue;
+                        }
                         if let Some((chunk, what)) = chunk_problem {
                             st.outcome("chunked-source-differs");
                             st.violate(order, "decoding from a source that delivers a few bytes per read differs from decoding the same bytes from a slice", case_json(sc, v, json!({"bytes": hex(&b1), "bytes_per_read": chunk, "decoded_from_slice": ev::trunc(&format!("{got:?}"), 200), "decoded_from_chunked_source": ev::trunc(&what, 300)})), replay_json(sc, vi, depth));
